@@ -103,7 +103,11 @@ pub fn fq2_operand(s: &mut Src, info: &mut Info, tag: &str) -> M2 {
 
 macro_rules! eqm {
     ($got:expr, $want:expr, $sig:expr, $($arg:tt)*) => {{
-        let g = obs(&$got);
+        let gv: Fq2 = $got;
+        if Fq2::from_slice(&gv.to_slice()) != Some(gv) {
+            return Err(Failure::new(&format!("{}|second-representation", $sig), format!("{}: result is not in canonical form (from_slice(to_slice(v)) != v)", format!($($arg)*))));
+        }
+        let g = obs(&gv);
         if g != $want {
             return Err(Failure::new($sig, format!("{}: got {} want {}", format!($($arg)*), show(&g), show(&$want))));
         }
